@@ -15,10 +15,12 @@ Definition kFst2 := 8%N.
 Definition mk_child (u : N) : cnode * N :=
   (CDir u false [(kS, CDir (u + 1) false [(kN, CVar (u + 2) 0 DSplit)])], (u + 3)%N).
 
-(* kind: bit 0 = deriver, bit 1 = the two flow steps, bit 2 = inert (no process at all: 'processes': {}) *)
+(* kind: bit 0 = deriver, bit 1 = the two flow steps, bit 2 = inert (no process at all: 'processes': {}),
+   bit 3 = without the counting process (a compartment that holds only steps) *)
 Definition has_drv (kind : N) : bool := N.testbit kind 0.
 Definition has_flow (kind : N) : bool := N.testbit kind 1.
 Definition is_inert (kind : N) : bool := N.testbit kind 2.
+Definition no_cnt (kind : N) : bool := N.testbit kind 3.       (* bit 3: no counting process (steps only) *)
 
 Definition build (kind : N) (u : N) : cnode * N :=
   if is_inert kind then
@@ -28,8 +30,9 @@ Definition build (kind : N) (u : N) : cnode * N :=
   let vars := [(kN, CVar (u + 2) 0 DSplit)]
               ++ (if has_drv kind then [(kD, CVar (u + 3) 0 DSet)] else [])
               ++ (if has_flow kind then [(kF, CVar (u + 4) 0 DSet); (kG, CVar (u + 5) 0 DSet)] else []) in
-  let nodes := [(kCnt, CProc (u + 6) {| pi_step := false; pi_in_steps := false; pi_flow := None; pi_obj := (u + 7)%N |});
-                (kS, CDir (u + 1) false vars)]
+  let nodes := (if no_cnt kind then []
+                else [(kCnt, CProc (u + 6) {| pi_step := false; pi_in_steps := false; pi_flow := None; pi_obj := (u + 7)%N |})])
+               ++ [(kS, CDir (u + 1) false vars)]
                ++ (if has_drv kind
                    then [(kDrv, CProc (u + 8) {| pi_step := true; pi_in_steps := false; pi_flow := None; pi_obj := (u + 9)%N |})] else [])
                ++ (if has_flow kind
